@@ -7,7 +7,7 @@ From GV Require Import Base.Ints Gen.Math Gen.Kernel Model.Mirror
   Proofs.Thresholds Proofs.MirrorAuth Proofs.MirrorNoop Proofs.MirrorChain Proofs.MirrorCert
   Proofs.MirrorTotal Proofs.MirrorRestart Proofs.MirrorLog
   Proofs.MirrorResumeWit Proofs.MirrorResumeLoad Proofs.MirrorResumeInv Proofs.MirrorResumeStart
-  Proofs.MirrorResumeOps Proofs.MirrorResumeOps2 Proofs.MirrorResumeOps3 Proofs.MirrorResumeOps4
+  Proofs.MirrorResumeAhead Proofs.MirrorResumeOps Proofs.MirrorResumeOps2 Proofs.MirrorResumeOps3 Proofs.MirrorResumeOps4
   Proofs.MirrorResumeOps5 Proofs.MirrorResume.
 Import ListNotations.
 Local Open Scope N_scope.
